@@ -92,4 +92,61 @@ inline bool ringsMeet(const std::vector<IPt>& r1, const std::vector<IPt>& r2) {
     for (size_t i = 0; i + 1 < r1.size(); i++) for (size_t j = 0; j + 1 < r2.size(); j++) if (segMeet(r1[i], r1[i + 1], r2[j], r2[j + 1])) return true;
     return false; }
 
+// ---- "one element away from an area-less partner": a target WITHOUT area (lines, points or both; its envelope has positive area) and a source
+// of 2-3 elements of which some lie in the target (chains along its linework, its vertices / edge points) and one is FREE: it shares no point
+// with the target although it lies inside the target's envelope.  Against a target without area RelateNG tests the points of the source only
+// when the predicate asks for it (requireExteriorCheck / requireCovers) - which differs between a predicate and its converse.
+inline bool ptOnSeg(const IPt& a, const IPt& b, const IPt& x) { return cross(a, b, x) == 0 && std::min(a.x, b.x) <= x.x && x.x <= std::max(a.x, b.x) && std::min(a.y, b.y) <= x.y && x.y <= std::max(a.y, b.y); }
+inline bool ptOnChain(const std::vector<IPt>& l, const IPt& x) { if (l.size() == 1) return l[0] == x; for (size_t i = 0; i + 1 < l.size(); i++) if (ptOnSeg(l[i], l[i + 1], x)) return true; return false; }
+inline bool ptInPolyClosed(const GElem& poly, const IPt& x) { int l = GridGen::locate(poly.rings[0], x); if (l < 0) return false; if (l == 0) return true;
+    for (size_t k = 1; k < poly.rings.size(); k++) if (GridGen::locate(poly.rings[k], x) == 1) return false; return true; }
+// does element e share a point with the area-less geometry g? (exact)
+inline bool elemMeets(const GElem& e, const GGeom& g) {
+    for (auto& t : g.elems) { if (t.empty || t.rings.empty() || t.rings[0].empty()) continue; const std::vector<IPt>& tl = t.rings[0];
+        if (e.kind == 0) { if (ptOnChain(tl, e.rings[0][0])) return true; }
+        else if (e.kind == 1) { if (tl.size() == 1) { if (ptOnChain(e.rings[0], tl[0])) return true; } else if (ringsMeet(e.rings[0], tl)) return true; }
+        else { for (auto& rg : e.rings) { if (tl.size() == 1) { if (ptOnChain(rg, tl[0])) return true; } else if (ringsMeet(rg, tl)) return true; }
+               if (ptInPolyClosed(e, tl[0])) return true; } }
+    return false; }
+
+struct FreePair { GGeom S, T; bool ok = false; };
+inline FreePair freeElementPair(Rng& r, GridGen& gen) {
+    FreePair fp; int keepSpan = gen.span, keepWalk = gen.walkPct; gen.span = r.chance(50) ? 5 : 8; gen.setPartner(GGeom{}, 0); gen.walkPct = 0;
+    int tk = (int) r.below(100); GGeom T;
+    for (int tries = 0; tries < 8; tries++) { T = GGeom{};
+        if (tk < 60) T = gen.geom(1, false, false);
+        else if (tk < 78) { T.container = 1; int np = r.range(2, 4); for (int q = 0; q < np; q++) T.elems.push_back(gen.point()); }
+        else { T.container = 2; T.elems.push_back(gen.line()); if (r.chance(50)) T.elems.push_back(gen.line()); int np = r.range(1, 2); for (int q = 0; q < np; q++) T.elems.push_back(gen.point());
+               for (size_t k = T.elems.size(); k > 1; k--) std::swap(T.elems[k - 1], T.elems[r.below(k)]); }
+        for (auto& e : T.elems) for (auto& rg : e.rings) for (auto& p : rg) { p.x *= 2; p.y *= 2; }
+        long x0 = 1L << 40, y0 = x0, x1 = -x0, y1 = -x0; bool any = false;
+        for (auto& e : T.elems) if (!e.empty) for (auto& rg : e.rings) for (auto& p : rg) { any = true; x0 = std::min(x0, p.x); x1 = std::max(x1, p.x); y0 = std::min(y0, p.y); y1 = std::max(y1, p.y); }
+        if (!any || x1 - x0 < 4 || y1 - y0 < 4) continue;
+        // covered elements
+        gen.setPartner(T, 100); std::vector<GElem> cov; int nc = r.range(1, 2);
+        for (int q = 0; q < nc; q++) { GElem e; bool haveLine = !gen.poolRings.empty();
+            if (haveLine && r.chance(75)) { e.kind = 1; std::vector<IPt> w = gen.walk(); if (w.size() < 2) continue; e.rings.push_back(w); }
+            else { e.kind = 0; e.rings.push_back({gen.pool[r.below(gen.pool.size())]}); }
+            cov.push_back(e); }
+        if (cov.empty()) continue;
+        // the free element: inside the envelope of T, no point in common with T
+        GElem fr; bool got = false;
+        for (int t2 = 0; t2 < 25 && !got; t2++) { fr = GElem{}; int fk = (int) r.below(100);
+            auto rp = [&]() { return IPt{x0 + (long) r.below((uint64_t) (x1 - x0 + 1)), y0 + (long) r.below((uint64_t) (y1 - y0 + 1))}; };
+            if (fk < 60) { fr.kind = 1; int n = r.range(2, 3); std::vector<IPt> ps; for (int k = 0; k < n; k++) ps.push_back(rp()); if (ps[0] == ps[1]) continue; if (n == 3 && ps[2] == ps[1]) ps.pop_back(); fr.rings.push_back(ps); }
+            else if (fk < 82) { fr.kind = 2; std::vector<IPt> ps; for (int k = 0; k < 4; k++) ps.push_back(rp()); auto hl = GridGen::hull(ps); if (hl.empty()) continue; fr.rings.push_back(hl); if (!gen.validElem(fr)) continue; }
+            else { fr.kind = 0; fr.rings.push_back({rp()}); }
+            if (elemMeets(fr, T)) continue;
+            got = true; }
+        if (!got) continue;
+        GGeom S; for (auto& e : cov) S.elems.push_back(e); S.elems.push_back(fr);
+        for (size_t k = S.elems.size(); k > 1; k--) std::swap(S.elems[k - 1], S.elems[r.below(k)]);
+        bool same = true; for (auto& e : S.elems) if (e.kind != S.elems[0].kind) same = false;
+        S.container = (same && !r.chance(25)) ? 1 : 2;
+        gen.cnt(std::string("free_target_") + (tk < 60 ? "lines" : tk < 78 ? "points" : "lines_and_points"));
+        gen.cnt(std::string("free_element_") + (fr.kind == 0 ? "point" : fr.kind == 1 ? "line" : "polygon"));
+        fp.S = S; fp.T = T; fp.ok = true; break; }
+    gen.span = keepSpan; gen.walkPct = keepWalk; gen.setPartner(GGeom{}, 0);
+    return fp; }
+
 } // namespace vh
